@@ -35,7 +35,7 @@ def do_replay(path):
     return 1
 
 
-def do_triage(prop, mod, res):
+def do_triage(prop, mod, res, dry=False):
     groups = {}
     for sp, cid, payload, exp, obs in res.triage:
         key, what = mod.signature(sp, cid, payload, exp, obs)
@@ -50,6 +50,12 @@ def do_triage(prop, mod, res):
         findings.append({"id": "%s-F%02d" % (prop, n), "signature": key, "what": g["what"],
                          "status": "known", "n_cases": len(g["cases"]), "example": g["example"],
                          "cases": g["cases"]})
+    if dry:
+        print("triage (dry run, --only given: nothing written): %d disagreements, %d groups" % (len(res.triage), len(findings)))
+        for fd in findings:
+            print("  n=%d %s | e.g. %r -> exp %s obs %s" % (fd["n_cases"], fd["what"][:100], fd["example"]["case"][:100],
+                                                           fd["example"]["expected"][:60], fd["example"]["observed"][:60]))
+        return
     store.write_ledger(prop, findings)
     # human-readable summary (no case maps); tools/build_known_findings.py merges these
     with open(os.path.join(store.KNOWN, prop + ".summary.json"), "w") as f:
@@ -97,7 +103,7 @@ def main(argv):
     if a.triage:
         if res.framework_errors:
             return R.report(prop, res)
-        do_triage(prop, mod, res)
+        do_triage(prop, mod, res, dry=bool(a.only))
         return 0
     extra = mod.extra_coverage(res) if hasattr(mod, "extra_coverage") else None
     if not a.no_evidence and not a.only:
